@@ -148,6 +148,14 @@ def run_case(i):
         tracegen.write_trace(wd, case["desc"], case["hist"], require=histgen.require_of(case["enabled"]),
                              extra_meta=extra or None, cpus_on=["first", "all", "shuffled", "split"][i % 4],
                              cpu_rng=chk.rng(i, "cpus"), rank_on="one" if (i // 4) % 2 else "all")
+        if i % 10 == 7:
+            # the directory still holds the (much longer) output files of an earlier emulation
+            stale = "#Paraver (01/01/70 at 00:00):99999999999_ns:0:1:1(9:1)\n" + "2:0:1:1:9:99999999998:4:1\n" * 20000
+            for nm in names:
+                for ext, txt in ((".prv", stale), (".pcf", "EVENT_TYPE\n0 4 stale\nVALUES\n1 stale\n" * 500),
+                                 (".row", "LEVEL THREAD SIZE 900\n" + "stale\n" * 900)):
+                    with open(os.path.join(wd, nm + ext), "w") as f:
+                        f.write(txt)
         r = emu.emu(build, wd, args, timeout=60)
         if r.timeout:
             out["inconclusive"] = "timeout"; return out
